@@ -308,6 +308,8 @@ def raster(ctx, col):
         ("every cone is added to the scene", ["scene.add_object(SDFObject(sdf, material).into())"], "r:add"),
         ("the node is handed to its parent", ["return n"], "r:hand"),
         ("bottom-up over the whole tree", ["x.traverse(leave=leave)"], "r:walk")], fixed=("x", "RoundCone", "SDFObject", "_tp3f"))
+    from ..rules import callbacks
+    callbacks.check(ctx, col, "R-AXES", sc, "the node handed up by a node's callback is the child its parent draws a cone to")
     col.text_group("R-AXES", call.qualname, call, [
         ("frames (one per z) are stacked along axis 0: (Z, X, Y)", ["return np.stack(list(self.transform(x, verbose=False)), axis=0)"], "r:stack")], fixed=("x",))
     # rounding direction of the bounding box
